@@ -259,9 +259,15 @@ impl Run {
             self.step(sc.withdraw(&u[0], b.id));
             self.step(sc.withdraw(&u[1], b.id));
         }
-        // rewards are refused while no LST exists; then the first stake after the complete exit
+        // rewards are refused while no LST exists (also when an accounting correction has left a
+        // staked total without any LST); then the first stake after the complete exit sweeps it
         self.step(Op::NativeMint { addr: coll.clone(), amount: 500 });
         self.step(sc.reward(&coll, &ch, 500));
+        if self.obs.l == 0 && sc.cfg.salt % 2 == 0 {
+            let r = self.obs.rewards;
+            self.step(sc.resume(12_345, 0, r));
+            self.step(sc.reward(&coll, &ch, 500));
+        }
         self.step(Op::NativeBurn { addr: coll.clone(), amount: 500 });
         self.step(sc.stake(&u[2], big, None, None, None));
         self.relay_all("ack");
